@@ -605,9 +605,9 @@ theorem encodeEvent_len (version : Nat) (e : EventMsg) (hwf : EventIpWf e) (b : 
   rfl
 
 private theorem writeInet_ok (a : Option Inet) (ha : ValidAddress a) : ∃ b, writeInet a = .ok b := by
-  obtain ⟨i, ip, rfl, hip, _, _⟩ := ha
-  rw [writeInet, hip, writeInetAddr]
-  cases to4 ip <;> exact ⟨_, rfl⟩
+  obtain ⟨i, ip, rfl, hip, hvip, _⟩ := ha
+  obtain ⟨a, ha⟩ := Prim.writeInetAddr_ok ip hvip
+  rw [writeInet, hip, ha]; exact ⟨_, rfl⟩
 
 private theorem topology_check (version : Nat) (t : Bytes)
     (h : t = TopologyChangeTypeNewNode ∨ t = TopologyChangeTypeRemovedNode ∨
